@@ -1611,6 +1611,13 @@ func splitLengthSample(f *ssa.Function, side *ssa.Alloc) *lengthSample {
 							ls.pos = c.Common().Args[i]
 						}
 					}
+				} else if _, rooted := an.Root(p).(*ssa.Parameter); rooted {
+					// the helper is handed the line itself and reads its StartPos
+					ls.pos = p
+				} else if u, isLoad := an.Root(p).(*ssa.UnOp); isLoad {
+					if _, rooted := an.Root(u.X).(*ssa.Parameter); rooted {
+						ls.pos = p
+					}
 				}
 			}
 			return ls
